@@ -1634,12 +1634,25 @@ class TeX(object):
             elif t in string.digits:
                 num = number(sign * int(t + self.readSequence(string.digits,
                                                               optspace=optspace)))
-                for t in self:
-                    if t.nodeType == Macro.ELEMENT_NODE and \
-                       isinstance(t, ParameterCommand):
-                        num = number(num * number(t))
+                # An integer constant may be followed by a register that
+                # multiplies it (e.g. 5\mycount).  Only look at the next
+                # token: anything that is not such a register (a closing
+                # brace, \fi, a macro with side effects, ...) must be left
+                # alone for whoever reads it next.
+                for t in self.itertokens():
+                    self.pushToken(t)
+                    context = self.ownerDocument.context
+                    name = getattr(t, 'macroName', None)
+                    if t.nodeType == Macro.ELEMENT_NODE:
+                        isregister = isinstance(t, ParameterCommand)
                     else:
-                        self.pushToken(t)
+                        isregister = name is not None and name in context and \
+                            isinstance(context[name], type) and \
+                            issubclass(context[name], ParameterCommand)
+                    if isregister:
+                        for t in self:
+                            num = number(num * number(t))
+                            break
                     break
             # octal constant
             elif t == "'":
